@@ -1,21 +1,6 @@
-"""Per-property wiring: which theorems file, which engines, which axioms are expected."""
-COMMON_TB = [
-    "Coq 8.16.1 kernel (coqc, vm_compute; native_compute not used); coqchk re-check in the thorough tier",
-    "translator harness/extract (Go, go/parser) that regenerates coq/Gen from /repo on every run",
-    "correspondence harness (Go engines in harness/, case emitters, tools/vlib.py parser of coqc output); no extraction is used, models run inside Coq",
-]
-FLOCQ_AXIOMS = ["ClassicalDedekindReals.sig_forall_dec", "ClassicalDedekindReals.sig_not_dec",
-                "FunctionalExtensionality.functional_extensionality_dep", "Classical_Prop.classic"]
-
-PROPS = {
-    "C16": {
-        "props": "Props/C16.v",
-        "corr": ["Corr/TimeCorr.v"],
-        "engines": [("time", [])],
-        "axioms": [],
-        "trusted": COMMON_TB + ["math.Log2 floor on [2, 2^32] = Z.log2 and float64 floor division = integer division below 2^53 (modelled; validated by the correspondence on boundary-directed inputs)"],
-        "assumptions": ["periods are whole seconds (sub-second periods are outside the property's quantifier)"],
-        "level_text": "Theorems C16_no_wrap, C16_monotone, C16_error_upward_closed, C16_current_brackets, C16_current_unique, C16_next hold for ALL periods 1..2^32-1 s, genesis 0..2^32, instants up to 2^50 s after genesis and all 64-bit rounds, over a model of common/time.go that keeps uint64/int64 wrap-around explicit; the model is compared with the real TimeOfRound/NextRound/CurrentRound on grid, boundary-directed and random inputs on every run, and the buffer constant is regenerated from the source.",
-        "level_note": "Kernel + vm_compute; no axioms. Assumes math.Log2 floor = Z.log2 and float64 floor division = integer division on the domain (validated by the correspondence, including at 2^k boundaries); the Go compiler/runtime is not verified.",
-    },
-}
+"""Registry of built checks: one module per property under tools/propcfg/ defining CFG."""
+import glob, importlib, os
+PROPS = {}
+for f in sorted(glob.glob(os.path.join(os.path.dirname(os.path.abspath(__file__)), "propcfg", "C*.py"))):
+    name = os.path.basename(f)[:-3]
+    PROPS[name] = importlib.import_module("propcfg." + name).CFG
